@@ -1,15 +1,17 @@
 import RoutinatorModel.Model.FsCrash
 import RoutinatorModel.Drv.Sexp
 import RoutinatorModel.Drv.Util
-/-! Driver for the crash model: `fscrash ( ( ( path size )* ) ( op* ) k )`.
+/-! Driver for the crash model: `fscrash ( ( ( path size )* ) ( op* ) k ( version* ) )`.
 
 `( path size )`: the files that exist before the run (`size` in bytes); `op` is `( c p )`
 create/truncate, `( w p n )` write of `n` bytes, `( r p q )` rename, `( u p )` unlink; `k` the
-number of operations completed before the kill. Path numbers carry the class of the path:
+number of operations completed before the kill; `version*` the point files that hold a complete
+stored version after the uninterrupted run. Path numbers carry the class of the path:
 1000… stored publication points, 2000… trust anchor certificates, 3000 the status file, 4000…
 temporary files, 5000… everything else in the cache directory.
 
-Reply: `steps=<class counts of the protocol steps recognised in the whole trace> state=<path:size
+Reply: `steps=<class counts of the protocol steps recognised in the whole trace>[,deviation=<n>:
+n stored versions were written in place instead of through a temporary file] state=<path:size
 or path:- for every non-temporary path of the trace after k operations>`. -/
 namespace RoutinatorModel.Drv
 open RoutinatorModel.FsCrash
@@ -61,24 +63,26 @@ def showState (init : Sizes) (ops : List TOp) (k : Nat) : String :=
     | some n => s!"{p}:{n}"
     | none => s!"{p}:-")
 
-def showSteps (ops : List TOp) : String :=
-  let shapes := (recognise ops []).map shapeKey
+def showSteps (ops : List TOp) (versions : List Path) : String :=
+  let recognised := recognise ops []
+  let shapes := recognised.map shapeKey
   let counts := keys.filterMap fun key =>
     let n := (shapes.filter (· == key)).length
     if n == 0 then none else some s!"{key}={n}"
-  joinWith "," counts
+  let bad := (inPlaceVersions recognised versions).length
+  joinWith "," (counts ++ (if bad == 0 then [] else [s!"deviation={bad}"]))
 
 end FsCrashDrv
 
 open FsCrashDrv in
 def runFsCrash (arg : String) : String :=
   match Sexp.parse arg with
-  | some (.list [inits, ops, k]) =>
-    match inits.list?.bind (·.mapM init?), ops.list?.bind (·.mapM op?), k.nat? with
-    | some inits, some ops, some k =>
+  | some (.list [inits, ops, k, versions]) =>
+    match inits.list?.bind (·.mapM init?), ops.list?.bind (·.mapM op?), k.nat?, versions.nats? with
+    | some inits, some ops, some k, some versions =>
       if k > ops.length then "bad-op"
-      else "steps=" ++ showSteps ops ++ " state=" ++ showState inits ops k
-    | _, _, _ => "bad-op"
+      else "steps=" ++ showSteps ops versions ++ " state=" ++ showState inits ops k
+    | _, _, _, _ => "bad-op"
   | _ => "bad-op"
 
 end RoutinatorModel.Drv
